@@ -46,9 +46,19 @@ def setup() -> None:
     gc.freeze()
 
 
+RUN_DIR = None  # set by the driver before it forks its pool; removed by the driver
+
+
 def _tmp():
+    """Scratch directory private to this process (pool workers are terminated, not exited: the
+    driver removes RUN_DIR as a whole)."""
     if _dir[0] is None or _dir[0][0] != os.getpid():
-        _dir[0] = (os.getpid(), imgs.tmpdir("x04"))
+        if RUN_DIR is None:
+            d = imgs.tmpdir("x04")
+        else:
+            d = RUN_DIR / f"w{os.getpid()}"
+            d.mkdir(parents=True, exist_ok=True)
+        _dir[0] = (os.getpid(), d)
     return _dir[0][1]
 
 
@@ -155,8 +165,9 @@ class World:
         stubs.set_identity(self.ident)
         UrwidImageCanvas._ti_disguise_state = 0
         self.classes = _widget_classes(UrwidImage)[:2]
-        if not hasattr(UrwidImage, "set_error_placeholder"):
-            raise MachineryError("seam UrwidImage.set_error_placeholder is missing")
+        for name in ("set_error_placeholder", "_ti_error_placeholder"):  # the latter only to RESET it
+            if not hasattr(UrwidImage, name):
+                raise MachineryError(f"seam UrwidImage.{name} is missing")
         self._reset_placeholders()
         # documented-as-ignored decorations of the format specifier, and the look of the source
         self.alpha = rng.choice(ALPHAS)
